@@ -15,6 +15,14 @@ CHECKS = {
         'construction histories, options); an oracle evaluates the round-trip laws directly on the implementation.',
    note=TB + 'Modelled, not verified: C++ reference counting, struct-sequence unnamed fields, keys outside the key universe (NaN, hash-equal cross-type keys).',
    design='§7 C01'),
+ 'C03': dict(
+   technique='Coq proof (induction on the depth budget, agenda lemma for the iterator) + extracted-model correspondence + all-pairs oracle on 8 entry points',
+   text='Theorems: flatten_with_path succeeds exactly when flatten does with the identical leaves and treespec (both directions); the paths it returns are the treespec\'s own paths; '
+        'draining the leaf iterator yields flatten\'s leaves; tree_is_leaf(x) iff flatten gives [x] with a leaf treespec; the unrestricted error-parity claim is refuted in the model '
+        '(C03_error_parity_refuted) by the two-fault witness that is known finding K1. The run compares the three traversals and the treespec walkers with the model and checks all eight entry points '
+        'against each other on valid, malformed and over-deep inputs.',
+   note=TB + 'Reductions (tree_reduce/sum/max/min/all/any) and tree_flatten_with_accessor are checked on the implementation only (they are one-line compositions in ops.py). Known finding K1 is matched by structure (entries/children mismatch with a failing descendant) and outcome pattern (only tree_iter differs, with RuntimeError).',
+   design='§7 C03'),
  'C08': dict(
    technique='Coq proof (decode/encode of the post-order array, structural induction on treespecs) + extracted-model correspondence',
    text='Theorems: flatten always yields the encoding of a well-formed structured treespec (decode . encode = id); children counts sum to the parent; '
